@@ -228,8 +228,10 @@ func genLockstep(fam lsFamily) func(r *core.Rand, env *core.Env, run int) *Scena
 					g.settle()
 				}
 			}
+			// WriteYield: the reply write is a scheduling point too (the bytes are only
+			// taken over by the connection when the handler is released again)
 			sc.Clients = append(sc.Clients, ClientProg{Name: fmt.Sprintf("c%d", ci), Role: "owner", Steps: g.steps,
-				Pipeline: 1 + r.Intn(2)*r.Intn(8), Chunked: r.Bool(0.25)})
+				Pipeline: 1 + r.Intn(2)*r.Intn(8), Chunked: r.Bool(0.25), WriteYield: r.Bool(0.3)})
 		}
 		return sc
 	}
